@@ -28,10 +28,10 @@ LEVEL_TEXT = {
            "corpus of patterns with choice points, lookarounds, backreferences and case-insensitivity, against an ES "
            "reference matcher, for every haystack of each enumerated shape (<= 3-4 characters, byte values symbolic); "
            "(2) Kani/CBMC on the real executor for a few straight-line programs over <= 2 symbolic characters; (3) Kani "
-           "kernels for the real loop decision, one-character loops, backtrack records and lookaround capture effects. "
+           "kernels for the real loop decision, one-character loops and backtrack records. "
            "Not a proof: outside the corpus and the bounds nothing is claimed.",
     "C02": "Kani/CBMC kernels tie BOTH real executors' step functions (loop decision, one-character loop step, undo "
-           "records, lookaround capture effects, iteration) to one specification; whole-executor agreement is explored "
+           "records, iteration) to one specification; whole-executor agreement is explored "
            "natively on one solver-produced witness per feasible path of the bytecode machine (solver-guided, not "
            "all-inputs).",
     "C03": "translation validation decided by an SMT solver: for each corpus pattern the optimised and unoptimised programs "
@@ -47,7 +47,9 @@ LEVEL_TEXT = {
            "offset, slice construction and unreachable_unchecked reached is checked for all haystacks within the bound; "
            "decoders are also compared with the UTF-8 definition.",
     "C09": "Kani/CBMC on the real iterator and search loops of both executors over an ARBITRARY deterministic engine "
-           "(symbolic result table), all haystacks <= 2 (quick) / 3 (thorough) characters, all start offsets.",
+           "(symbolic result table), all haystacks <= 1 character, all start offsets (2-3 character harnesses exceed the machine, DESIGN 8.4); plus a "
+           "solver-guided native exploration: on one witness per feasible path of the bytecode machine every real iterator "
+           "must yield the lastIndex unfolding of fresh first-match searches.",
     "C10": "Kani/CBMC: the real fold / legacy upper-case table lookups for EVERY code point against independent oracles; "
            "the real compile-time expansion of /c/ and /[c]/ for every character with a non-trivial class (rows dumped "
            "natively, row lemma decided symbolically); case-insensitive backreference kernel; plus SMT-decided engine "
@@ -74,10 +76,11 @@ LEVEL_TEXT = {
            "deterministic engine.  std String growth is replaced by a fixed-capacity model (overflow asserted).",
     "C18": "Kani/CBMC: escape(s) for every string of <= 3 scalar values (all of Unicode) equals 'backslash before exactly "
            "the 14 syntax characters'.  std String growth is replaced by a fixed-capacity model (overflow asserted).",
-    "C20": "Kani/CBMC on the real Searcher / ReverseSearcher implementation over an arbitrary deterministic engine: the "
-           "whole step stream until Done is adjacent, covering, on char boundaries, and the forward Match steps are the "
-           "find_iter sequence.  quick: forward <= 1 character, backward on the empty haystack; thorough: forward <= 2, "
-           "backward <= 1-2 characters.",
+    "C20": "Kani/CBMC on the real forward Searcher (RegexSearcher::next through <&Regex as Pattern>::into_searcher) over an "
+           "arbitrary deterministic engine: the whole step stream until Done is adjacent, covering, on char boundaries, "
+           "and the Match steps are the find_iter sequence, for every haystack of <= 1 character (1-4 bytes).  The "
+           "ReverseSearcher and 2-character harnesses exist but exceed this machine's memory/time (DESIGN 8.4) and are "
+           "in no registered command: next_back is NOT covered by a solver verdict.",
 }
 
 
